@@ -86,7 +86,8 @@ Combine(cfg, run, v) ==
 InitState(cfg, w, ad) ==
   [cfg |-> cfg, w |-> w, ad |-> ad,
    cm |-> [c \in 1..cfg.nc |-> 0], nm |-> [n \in 1..cfg.nn |-> 0], sp |-> [n \in 1..cfg.nn |-> 0],
-   fb |-> -1, hist |-> <<>>]
+   fb |-> -1, fb0 |-> 0, hist |-> <<>>]
+\* fb0: the feedback spikes carried ACROSS the last clear (RecurrentSerial.clear(clear_feedback=False)), 0: none
 
 Dyn(st) == [cm |-> st.cm, nm |-> st.nm, sp |-> st.sp, fb |-> st.fb]
 Kept(st) == [cfg |-> st.cfg, w |-> st.w, ad |-> st.ad]
@@ -154,7 +155,7 @@ MStep(st, x) == IF st.cfg.kind = "recurrent" THEN MStepRec(st, x) ELSE MStepFlat
 (* ModuleDict yields: strings, so `.clear` raises AttributeError).         *)
 (***************************************************************************)
 MClear(st, iter) ==
-  LET s1 == IF st.cfg.kind = "recurrent" THEN [st EXCEPT !.fb = -1] ELSE st
+  LET s1 == IF st.cfg.kind = "recurrent" THEN [st EXCEPT !.fb = -1, !.fb0 = 0] ELSE st
   IN IF iter = "keys"
      THEN {Out(s1, [t |-> "err", e |-> "AttributeError"])}
      ELSE {Out([s1 EXCEPT !.cm = [c \in 1..st.cfg.nc |-> 0],
@@ -165,7 +166,15 @@ MClear(st, iter) ==
 
 \* RecurrentSerial.clear(submodules=False): only the stored feedback spikes are dropped; connections and neurons
 \* keep their state.  The next step then sees NO feedback spikes (as the first step does).
-MClearFb(st) == {Out([st EXCEPT !.fb = -1], [t |-> "ok"])}
+\* Layer.clear(submodules=False) on a Serial / Biclique clears nothing at all.
+MClearFb(st) == {Out([st EXCEPT !.fb = -1, !.fb0 = IF st.hist = <<>> THEN 0 ELSE @], [t |-> "ok"])}
+
+\* RecurrentSerial.clear(clear_feedback=False): connections and neurons are cleared, the stored feedback spikes are
+\* kept - the first step after it still receives them through the feedback connection
+MClearKeepFb(st) ==
+  {Out([st EXCEPT !.cm = [c \in 1..st.cfg.nc |-> 0], !.nm = [n \in 1..st.cfg.nn |-> 0], !.sp = [n \in 1..st.cfg.nn |-> 0],
+                  !.hist = <<>>, !.fb0 = IF st.fb = -1 THEN 0 ELSE st.fb],
+       [t |-> "ok"])}
 
 MLearn(st) == {Out([st EXCEPT !.w = st.w + 1], [t |-> "ok"])}
 
@@ -173,6 +182,7 @@ MApplyI(st, o, iter) ==
   CASE o.a = "step" -> MStep(st, o.x)
     [] o.a = "clear" -> MClear(st, iter)
     [] o.a = "clear_fb" -> MClearFb(st)
+    [] o.a = "clear_keepfb" -> MClearKeepFb(st)
     [] o.a = "learn" -> MLearn(st)
 
 MApply(st, o) == MApplyI(st, o, "values")
@@ -207,12 +217,13 @@ AFlatAt(cfg, a0, h, t) ==
 
 \* the recurrent layer: feed-forward neurons get feed-forward current + the feedback
 \* connection's response to the feedback spikes OF THE PREVIOUS STEP (none on the first)
-ARecAt(cfg, a0, h, t) ==
+ARecAtF(cfg, a0, h, t, fb0) ==
   LET R[u \in 0..t] ==
         IF u = 0 THEN [y1 |-> 0, y2 |-> 0, n1 |-> 0, n2 |-> 0, fbin |-> 0, latin |-> 0, c1 |-> 0, c2 |-> 0, c3 |-> 0]
         ELSE LET p == R[u - 1]
                  w == h[u].w
-                 fbin == (IF u = 1 \/ h[u].cut THEN 0 ELSE p.y2) + Tr(cfg, IT[2])   \* no spikes on the first step, nor
+                 fbin == (IF u = 1 THEN fb0 ELSE IF h[u].cut THEN 0 ELSE p.y2) + Tr(cfg, IT[2])   \* no spikes on the first step
+                                                                                 \* (unless carried across a clear), nor
                                                                                  \* after the feedback was dropped
                  c1 == ConnOut(1, h[u].x[1], IF u = 1 THEN 0 ELSE h[u - 1].x[1], w)
                  c3 == ConnOut(3, fbin, p.fbin, w)
@@ -228,7 +239,9 @@ ARecAt(cfg, a0, h, t) ==
   IN [y |-> <<r.y1, r.y2>>, nin |-> <<r.n1, r.n2>>, cin |-> <<h[t].x[1], r.latin, r.fbin>>,
       cout |-> <<r.c1, r.c2, r.c3>>]
 
-AbsAt(cfg, a0, h, t) == IF cfg.kind = "recurrent" THEN ARecAt(cfg, a0, h, t) ELSE AFlatAt(cfg, a0, h, t)
+ARecAt(cfg, a0, h, t) == ARecAtF(cfg, a0, h, t, 0)
+AbsAtF(cfg, a0, h, t, fb0) == IF cfg.kind = "recurrent" THEN ARecAtF(cfg, a0, h, t, fb0) ELSE AFlatAt(cfg, a0, h, t)
+AbsAt(cfg, a0, h, t) == AbsAtF(cfg, a0, h, t, 0)
 
 \* adaptation carried when the layer was built / last cleared
 A0(st) == [n \in 1..st.cfg.nn |-> st.ad[n] - Len(st.hist)]
@@ -247,13 +260,17 @@ RefinesAtI(st, o, iter) ==
     CASE o.a = "step" ->
            LET h == Append(st.hist, [x |-> o.x, w |-> st.w,
                                       cut |-> (st.cfg.kind = "recurrent" /\ st.fb = -1 /\ st.hist # <<>>)])
-               e == AbsAt(st.cfg, A0(st), h, Len(h))
+               e == AbsAtF(st.cfg, A0(st), h, Len(h), st.fb0)
            IN /\ mo.ret.t = "out"
               /\ mo.ret.y = e.y /\ mo.ret.nin = e.nin /\ mo.ret.cin = e.cin /\ mo.ret.cout = e.cout
       [] o.a = "clear" ->
            /\ mo.ret.t = "ok"
            /\ mo.st = InitState(st.cfg, st.w, st.ad)
-      [] o.a = "clear_fb" -> mo.ret.t = "ok" /\ mo.st = [st EXCEPT !.fb = -1]
+      [] o.a = "clear_fb" -> mo.ret.t = "ok" /\ Kept(mo.st) = Kept(st) /\ Dyn(mo.st) = [Dyn(st) EXCEPT !.fb = -1]
+                             /\ mo.st.hist = st.hist
+      [] o.a = "clear_keepfb" ->
+           /\ mo.ret.t = "ok"
+           /\ mo.st = [InitState(st.cfg, st.w, st.ad) EXCEPT !.fb = st.fb, !.fb0 = IF st.fb = -1 THEN 0 ELSE st.fb]
       [] OTHER -> Kept(mo.st).ad = st.ad /\ Dyn(mo.st) = Dyn(st)
 
 RefinesAt(st, o) == RefinesAtI(st, o, "values")
